@@ -141,7 +141,10 @@ def run_driver(exe, args, timeout=900, env=None, allow_fail=False):
     if env:
         e.update(env)
     t = time.time()
-    rc, out = sh([exe] + [str(a) for a in args], timeout=timeout, env=e)
+    # drivers run in the scratch area: STIR writes some files (e.g. list-mode cache files my_CACHE<n>.bin) to the
+    # current directory when no path is configured
+    os.makedirs(os.path.join(B, "work", "cwd"), exist_ok=True)
+    rc, out = sh([exe] + [str(a) for a in args], timeout=timeout, env=e, cwd=os.path.join(B, "work", "cwd"))
     if rc == 124:
         raise ModelFailure("driver timed out: %s %s" % (exe, args))
     if rc != 0 and not allow_fail:
